@@ -118,17 +118,19 @@ theorem c09_once (f : Int → Outcome) (sched : List Step) :
     have := i.onceD t ht hq
     simp [this.1, this.2]
 
-/-- **one execution of `_push_task`** (the regenerated translation, every behaviour of `convert_snapshot` and of
-    `stub.send`): at most one send attempt; exactly one iff the snapshot converted — none when it did not convert or
-    the conversion raised; what leaves the task is the conversion's exception, or the send's, and nothing otherwise. -/
-theorem c09_push_task_outcomes (conv : ConvOut) (send : Option Py.Exn) :
-    (pushTask conv send).1 ≤ 1 ∧
-    ((pushTask conv send).1 = 1 ↔ conv = .converted) ∧
-    (pushTask conv send).2 = (match conv with
+/-- **one execution of `_push_task`** (the regenerated translation; every behaviour of `convert_snapshot`, of building
+    the stub, of `self.grpc.metadata()` and of `stub.send`): at most one send attempt; exactly one iff the snapshot
+    converted AND the stub could be built AND the arguments of `send` could be evaluated — none when it did not convert,
+    the conversion raised, `SnapshotServiceStub(channel)` raised or `metadata()` raised; what leaves the task is the
+    first of those failures, else the send's, and nothing otherwise. -/
+theorem c09_push_task_outcomes (conv : ConvOut) (stub md send : Option Py.Exn) :
+    (pushTask conv stub md send).1 ≤ 1 ∧
+    ((pushTask conv stub md send).1 = 1 ↔ conv = .converted ∧ stub = none ∧ md = none) ∧
+    (pushTask conv stub md send).2 = (match conv with
       | .raises e => some e
       | .isNone => none
-      | .converted => send) := by
-  cases conv <;> cases send <;> simp [pushTask]
+      | .converted => (stub.or md).or send) := by
+  cases conv <;> cases stub <;> cases md <;> cases send <;> simp [pushTask]
 
 /-- tripwire: one run = one send for a snapshot that converts and is delivered or fails in `send`; none otherwise -/
 theorem c09_sends_per_outcome :
@@ -273,16 +275,21 @@ theorem c09_submit_sites :
       [("deep/config/tracepoint_config.py", "TracepointConfigService.__trigger_update"),
        ("deep/push/push_service.py", "PushService.push_snapshot")] := by decide
 
-/-- **refused visibly, through every submitter** — whatever state the closed handler is in, at every in-tree
-    submitter the refusal is never dropped silently: the `IllegalStateException` of `submit_task` reaches the
-    submitter's caller, or the site that swallows it emits a log record at WARNING or above; the handler accepts
-    nothing (`c09_refuse`).  (As the source is now no site swallows; a site that swallows AND logs keeps the
-    theorem, one that swallows silently breaks it.)  Joins C12's shutdown window (`c12_update_after_flush_kills_timer`): a late UPDATE is
-    refused loudly in the poll thread. -/
+/-- tripwire: **refused visibly, at every submit site and one level up** — `c09_refuse` (a closed handler's
+    `submit_task` raises the `BaseException`) plus a decided check of two regenerated tables: at no `submit_task` call
+    site, and at no in-tree call of a function containing one (`submitCallers`: update_new_config / add_custom /
+    remove_custom -> __trigger_update, the two snapshot callbacks -> push_snapshot), does the call stand in a `try` OF
+    THAT DEF that swallows the refusal without logging at WARNING or above — so the outcome at the site is `raised` or
+    `logged`, never `silent`.  What the tables do NOT see: callers two or more levels up, aliases, getattr / partial,
+    `contextlib.suppress`, `try … finally: return`.  Those are covered only dynamically, by the `submitters` stream of
+    the check (real Deep graph, every entry point after the real flush()), which is what caught a swallow placed in a
+    caller.  Joins C12's shutdown window (`c12_update_after_flush_kills_timer`). -/
 theorem c09_refused_visibly_everywhere (th : TH) (h : th.isOpen = false) :
-    ∀ site ∈ submitSites, ∃ r, siteOutcome site th = some r ∧ r ≠ .silent := by
+    (∀ site ∈ submitSites, ∃ r, siteOutcome site (some th) = some r ∧ r ≠ .silent) ∧
+    (∀ c ∈ submitCallers, c.swallowsRefusal = false ∨ c.handlerLogs = true) := by
   have e : submitTask th = .error .base := by
     simp [submitTask, submitAccept, h, fact_refuses, refusalClass]
+  refine ⟨?_, by decide⟩
   intro site hs
   have hv : ∀ s ∈ submitSites, s.swallowsRefusal = false ∨ s.handlerLogs = true := by decide
   rcases hv site hs with h1 | h1
@@ -291,11 +298,24 @@ theorem c09_refused_visibly_everywhere (th : TH) (h : th.isOpen = false) :
     | false => exact ⟨.raised .base, by simp [siteOutcome, e, h2], by simp⟩
     | true => exact ⟨.logged, by simp [siteOutcome, e, h1, h2], by simp⟩
 
-/-- … and while the handler is open every submitter's work is accepted -/
+/-- model lemma: when `submit_task` of an open handler returns, no site reports a refusal (`siteOutcome` does not
+    look at the site on that branch; it restates `fact_accepts`).  An open handler's submit can still fail in the
+    executor — `c09_executor_rejection`, `c09_queued_then_raised` — which is not part of `siteOutcome`. -/
 theorem c09_accepted_while_open (th : TH) (h : th.isOpen = true) :
-    ∀ site ∈ submitSites, siteOutcome site th = none := by
+    ∀ site ∈ submitSites, siteOutcome site (some th) = none := by
   intro site _
   simp [siteOutcome, submitTask, submitAccept, h, fact_accepts]
+
+/-- witness (observation, not reachable through `Deep`): a `TracepointConfigService` that was never given a task handler
+    drops every configuration update without a word — `__trigger_update` is guarded by `if self._task_handler is not
+    None:` with no `else` (regenerated: `noneGuard`), so nothing is submitted, nothing raised, nothing logged and the
+    listeners are never told; the push service's site has no such guard.  `Deep.__init__` hands the handler over before
+    anything can poll or register (checked by extract/configsvc.py `check_api`), so the agent as wired never is in
+    this state. -/
+theorem c09_no_handler_drops_silently :
+    submitSites.map (fun s => (s.func, siteOutcome s none)) =
+      [("TracepointConfigService.__trigger_update", some .silent),
+       ("PushService.push_snapshot", some (.raised .exc))] := by decide
 
 /-- flush closes the handler before it looks at the pending map, and a closed handler stays closed -/
 theorem c09_closed_stays (f : Int → Outcome) (sched : List Step) (s : St) (h : s.th.isOpen = false) :
